@@ -108,7 +108,7 @@ where
         if pre_m.verts.len() > D + 2 {
             nontrivial = true;
         }
-        let op = hist::next_op(&mut rng, &pre_m, &mem, &mix);
+        let op = if mem.script.is_empty() { hist::next_op(&mut rng, &pre_m, &mem, &mix) } else { mem.script.remove(0) };
         let log_snapshot = log.clone();
         let mk_rp = |extra: Value| {
             let mut rp = base.clone();
